@@ -16,9 +16,12 @@ def _compute_static_error(
             powertrain_efficiency *= element.master_gear_efficiency
 
     if load_torque is not None:
-        static_error = (
-            (load_torque/maximum_torque)/powertrain_efficiency
-        )*braking_angle
+        static_error = AngularPosition(
+            value=(
+                (load_torque/maximum_torque)/powertrain_efficiency
+            )*braking_angle.value,
+            unit=braking_angle.unit
+        )
     else:
         static_error = AngularPosition(0, 'rad')
 
